@@ -263,6 +263,9 @@ pub fn make_thunk(env: &Arc<Env>, a: i64) -> Box<dyn FnOnce(Box<dyn Dispatcher<A
         let who = sched().current_role();
         envc.cb("effect", &who, json!([]), a, json!([]));
         let _ = dispatcher.dispatch(envc.cfg.act(a));
+        // the thunk is still running after its dispatch returned: the action is queued by now
+        let d = json!({"what": "after", "who": who, "st": [], "a": a, "rd": [], "effs": []});
+        sched().point_of(Some(envc.epoch), Class::Gate, "cb", d);
     })
 }
 
